@@ -222,3 +222,11 @@ pub(super) mod udp {
         ((item, recipient.clone()), sender)
     }
 }
+
+#[cfg(octo_squirrel_verif)]
+impl ClientAEADCodec {
+    /// Verification hook: a codec whose session (body key/IV, response header byte) is chosen by the caller
+    pub fn verif_with_session(header: RequestHeader, session: ClientSession) -> Self {
+        Self { header, session, body_encoder: None, body_decoder: None }
+    }
+}
